@@ -118,8 +118,16 @@ fn main() {
         Some("core") => {
             println!("{{\"core\":{}}}", list_json(&mmtk::verif::meta::core_side_metadata_specs()));
         }
+        Some("immix") => {
+            let c = mmtk::verif::immix::consts();
+            println!(
+                "{{\"line_log_bytes\":{},\"block_log_bytes\":{},\"block_lines\":{},\"block_pages\":{},\"reset_mark_state\":{},\"max_mark_state\":{},\"mark_unallocated\":{},\"mark_unmarked\":{},\"mark_marked\":{},\"block_only\":{},\"mark_line_at_scan_time\":{},\"max_object_size\":{}}}",
+                c.line_log_bytes, c.block_log_bytes, c.block_lines, c.block_pages, c.reset_mark_state, c.max_mark_state,
+                c.mark_unallocated, c.mark_unmarked, c.mark_marked, c.block_only, c.mark_line_at_scan_time, c.max_object_size
+            );
+        }
         _ => {
-            eprintln!("usage: hx_consts specs <Plan> | vmplacements | core");
+            eprintln!("usage: hx_consts specs <Plan> | vmplacements | core | immix");
             std::process::exit(2);
         }
     }
